@@ -11,18 +11,23 @@ EXPLANATION = ("Every estimator (function and class form) is executed twice in t
                "symbolic scalar c != 0 (complex c for complex data). z3 decides psd(c x) = |c|^2 psd(x), rho(c x) = |c|^2 rho(x), "
                "and that AR / MA / reflection coefficients, multitaper weights and the subspace dimension are unchanged; MUSIC "
                "unchanged, EV and the singular values times |c|. Decisions taken by the second run are explored under the "
-               "first run's path condition, so an order / subspace decision that depends on scale shows up as a feasible disagreeing path.")
+               "first run's path condition, so an order / subspace decision that depends on scale shows up as a feasible disagreeing path. "
+               "The automatic decisions themselves: the real aic_eigen / mdl_eigen (subspace dimension = argmin) and AIC, AICc, KIC, AKICc, FPE, MDL (AR order) are "
+               "executed on symbolic positive singular values / prediction errors and on their |c|- resp. |c|^2-multiples, with log and fractional "
+               "powers as an algebra; z3 decides that every criterion value shifts by the same amount (or scales by the same positive factor), so no comparison between orders changes.")
 BOUNDS = {
     "quick": "functions: CORRELATION/xcorr N=3, speriodogram N=3 NFFT=4, CORRELOGRAMPSD N=3, aryule p<=2 N=3, arburg p<=2 N=4 (real) / p=1 N=3 (complex), "
              "arcovar/modcovar(+marple) p=1 N=4, minvar m=2 N=4, ma / arma_estimate with 1-2 symbolic samples, pmtm unity/eigen/adapt(<=1 iteration) N=3 NFFT=4, "
-             "eigen music/ev N=4 P=2 (NSIG explicit and threshold); classes: all 12 at minimal size",
-    "thorough": "adds p=2 for the covariance family, N+1 everywhere, complex data for every estimator that admits it, adapt <= 2 iterations",
+             "eigen music/ev N=4 P=2 (NSIG explicit and threshold); classes: all 12 at minimal size; "
+             "criteria: aic_eigen / mdl_eigen on n = 3..5 singular values, AR criteria at k=1 (any rho_k, rho_k+1 > 0), scale in [1e-3, 1e3] (squared: [1e-6, 1e6])",
+    "thorough": "adds p=2 for the covariance family, N+1 everywhere, complex data for every estimator that admits it, adapt <= 2 iterations; criteria n <= 8, k <= 3",
 }
-ASSUMPTIONS = ["floats modelled as exact reals", "c != 0 (the box 1e-3 <= |c| <= 1e3 is subsumed)", "fft = DFT definition; lstsq exact",
+ASSUMPTIONS = ["floats modelled as exact reals", "criteria cases: log and x^r uninterpreted on positive arguments with exactly the rewrite rules log(xy) = log x + log y, "
+               "log(x^r) = r log x, (xy)^r = x^r y^r; float exponents such as 1./3 read as the rational they stand for", "c != 0 (the box 1e-3 <= |c| <= 1e3 is subsumed)", "fft = DFT definition; lstsq exact",
                "svd: for the scaled run the stub returns S2 = |c| S1 and Vh2 = Vh1; the check separately decides that the matrix handed to svd is "
                "D*FB with D = diag(c.., conj(c)..), of which this relation is the mathematical consequence (singular vectors up to phase, which the pseudo-spectrum ignores)",
                "multitaper: tapers/eigenvalues supplied as constants; adaptive iteration bounded (paths needing more iterations are cut and counted)"]
-OUTSIDE = ["AIC/MDL subspace selection (logarithms of symbolic singular values)", "float-only effects such as the unscaled `assert e.imag < 1e-4` in arcovar",
+OUTSIDE = ["the whole-function run of eigen() with criteria-selected NSIG (its decision function is checked separately, see criteria cases)", "CAT criterion (writes into a float numpy array)", "float-only effects such as the unscaled `assert e.imag < 1e-4` in arcovar",
            "orders above the bounds"]
 BUDGET = {"quick": 900, "thorough": 3400}
 
@@ -241,9 +246,73 @@ FUNCS_T = [('arburg', 5, {'p': 2}), ('arcovar', 5, {'p': 2}), ('modcovar', 5, {'
            ('modcovar_marple', 5, {'p': 2}), ('minvar', 5, {'m': 3}), ('aryule', 4, {'p': 3}), ('arma_estimate', 5, {'nsym': 2})]
 
 
+def _arr(h, vals):
+    if h.is_sym():
+        from symx.array import SymArray
+        return SymArray.make(list(vals))
+    return np.array([float(v) for v in vals])
+
+
+def case_criteria_eigen(h, name, n, N):
+    """the subspace decision argmin_k crit(k) does not depend on the scale of the singular values: the real
+    aic_eigen / mdl_eigen are executed on symbolic positive s and on a*s (a = |c|), logarithms and fractional powers as an
+    algebra (log xy = log x + log y, log x^r = r log x); crit(a s)[k] - crit(s)[k] must be the same number for every k"""
+    import sys as _sys
+    sp()
+    C = _sys.modules['spectrum.criteria']
+    if h.is_sym():
+        ctx().log_algebra = True
+    s = [h.real('s%d' % i, positive=True) for i in range(n)]
+    a = h.real('a', lo=0.001, hi=1000.0)
+    f = getattr(C, name)
+    base = f(_arr(h, s), N)
+    scaled = f(_arr(h, [a * v for v in s]), N)
+    if len(base) != n - 1 or len(scaled) != n - 1:
+        h.fail("len", "criterion vector of length %d / %d for %d singular values" % (len(base), len(scaled), n))
+        return
+    d0 = scaled[0] - base[0]
+    for k in range(1, n - 1):
+        h.claim_eq("shift[%d]=shift[0]" % k, scaled[k] - base[k], d0)
+
+
+def case_criteria_ar(h, name, N, k):
+    """order decision of the AR criteria: comparing crit(rho_k, k) with crit(rho_{k+1}, k+1) gives the same answer for
+    |c|^2 rho: log criteria shift by a constant, FPE scales by |c|^2, CAT by 1/|c|^2"""
+    import sys as _sys
+    sp()
+    C = _sys.modules['spectrum.criteria']
+    if h.is_sym():
+        ctx().log_algebra = True
+    r0 = h.real('rho0', positive=True)
+    r1 = h.real('rho1', positive=True)
+    a = h.real('a', lo=0.000001, hi=1000000.0)
+    f = getattr(C, name)
+    if name == 'CAT':
+        b = f(N, _arr(h, [r0, r1]), None)
+        sc = f(N, _arr(h, [a * r0, a * r1]), None)
+        for i in range(2):
+            h.claim_eq("CAT[%d] scales by 1/|c|^2" % i, sc[i] * a, b[i])
+        return
+    b0, b1 = f(N, r0, k), f(N, r1, k + 1)
+    s0, s1 = f(N, a * r0, k), f(N, a * r1, k + 1)
+    if name == 'FPE':
+        h.claim_eq("FPE(k) scales by |c|^2", s0, a * b0)
+        h.claim_eq("FPE(k+1) scales by |c|^2", s1, a * b1)
+    else:
+        h.claim_eq("difference between consecutive orders unchanged", s1 - s0, b1 - b0)
+
+
 def cases(tier, seed):
     q = tier == 'quick'
     out = []
+    for name in ('aic_eigen', 'mdl_eigen'):
+        for n in ((3, 4, 5) if q else (3, 4, 5, 6, 7, 8)):
+            out.append(Case("criteria-eigen:%s:n=%d" % (name, n), case_criteria_eigen, dict(name=name, n=n, N=8),
+                            timeout=60 if q else 300, max_paths=8, feas_timeout=3))
+    for name in ('AIC', 'AICc', 'KIC', 'AKICc', 'FPE', 'MDL'):
+        for k in ((1,) if q else (1, 2, 3)):
+            out.append(Case("criteria-ar:%s:k=%d" % (name, k), case_criteria_ar, dict(name=name, N=16, k=k),
+                            timeout=60 if q else 300, max_paths=8, feas_timeout=3))
     for fn, N, kw in FUNCS + ([] if q else FUNCS_T):
         for cplx in (False, True):
             if cplx and (kw.get('nsym') or (q and fn in ('arburg', 'aryule') and kw.get('p') == 2)):
